@@ -40,7 +40,44 @@ THEMES = {
         "element object in two different trees; register, use, re-register. Prefer a fault that only ONE of several "
         "equivalent routes shows (e.g. only the second of two equal sub-schemas, only the last property, only when "
         "the value is rejected first and accepted later)."),
+    8: ("Make it look like a change a maintainer would plausibly merge. All inputs must be LEGAL (schemas valid under "
+        "JSON Schema Draft 6, DSL calls with documented arguments and sensible usage). First read the statement "
+        "clause by clause and pick the clause (or the item of the quantifier) that you judge LEAST likely to be "
+        "enforced by anybody's tests - quote that clause in your meta.json 'needs' field - and break exactly that, "
+        "leaving every other clause intact. Your change must also sit in a function that none of the earlier "
+        "changes touched (their locations are listed below). Good hiding places: a second code path that does the "
+        "same job as a well-tested one (the `Object` class path vs the untyped `Element` path; `parse()` vs "
+        "`parse_element()`; tuple `items` vs single `items`; `AnyOf` vs `OneOf` vs `AllOf`; the JSON serialiser vs "
+        "the Python serialiser), an early return or short-circuit that skips work for one shape of input only, "
+        "or a helper shared by two features that is changed for the benefit of one of them."),
 }
+
+
+def locations(pid, rnd):
+    if rnd < 8:
+        return ""
+    locs = used_locations(pid)
+    return "      Locations they changed (file: enclosing definition):\n" + "".join(f"        - {x}\n" for x in locs)
+
+
+def used_locations(pid):
+    import glob
+    import re
+
+    out = []
+    for path in sorted(glob.glob(os.path.join(home, "seeded", pid + "*", "patch.diff"))):
+        current = None
+        for line in open(path, encoding="utf8", errors="replace"):
+            if line.startswith("+++ b/"):
+                current = line[6:].strip()
+            m = re.match(r"@@ .* @@\s*(.*)", line)
+            if m and current:
+                ctx = m.group(1).strip()
+                item = current + (": " + ctx if ctx else "")
+                if item not in out:
+                    out.append(item)
+    return out
+
 
 for pid, p in props.items():
     prev = []
@@ -68,7 +105,7 @@ Your task: make a SMALL, REALISTIC change to the library source under {wt}/stath
   (c) the breakage needs something SPECIFIC to manifest and is as hard to notice as you can make it while still being a genuine violation of the statement above. {THEMES[rnd]}
   (d) {len(prev)} other people already wrote changes for this property; yours must be different in kind and location from all of them:
 {prevtxt}
-      Do not touch tests.
+{locations(pid, rnd)}      Do not touch tests.
 
 Then write a demonstration {wt}/_seed/demo.py: a small standalone program (run as: cd {wt} && PYTHONPATH={wt} /venv/bin/python _seed/demo.py) that exits 0 on the ORIGINAL code and exits non-zero (assertion failure) WITH your change, by exercising exactly the broken behaviour through the public API. Verify both directions yourself.
 
